@@ -1,6 +1,6 @@
 import Driver.Util
-import NixModel.Pure.NdArray
-open Lean Nix Nix.Nd Nix.Gen.Compr
+import NixModel.Pure.NdRun
+open Lean Nix Nix.Nd Nix.Gen.Compr Nix.NdGen
 
 /-!
 Driver for C01.  One JSON object per line:
@@ -9,7 +9,12 @@ Driver for C01.  One JSON object per line:
    "steps": [["write", ARR] | ["assign", [IX..], ARR] | ["append", ARR, axis] | ["resize", [int..]]
              | ["reopen"] | ["read", [IX..]] ...]}
   ARR = {"dt": <name>, "shape": [n..], "flat": [elements in C order]}     IX = int | [start|null, stop|null, step|null]
+  An index argument is [IX..] (a tuple) or {"f": "t"|"b"|"n", "i": [IX | "..." ..]}: a tuple, a bare item, None;
+  "..." is Ellipsis.
 Elements: integers as numbers, floats as the number of their IEEE bit pattern, booleans, strings.
+The data of a step keeps its own element type ("dt"); the model converts it (NdConv) or refuses the step.
+Every operation is executed through the definitions compiled from the Python source (Generated/DataSetShape.lean):
+dsAppend, dsSetItem, dsWriteDirect, dsGetItem, dsLen, dsSize, dsSetExtent, createRules.
 Output: {"ok": {"create": "ok"|<Err>, "compressed": bool, "steps": [<observation after each step>]}}.
 A special line ["resolve", fc, bc, ac, refetched] answers {"ok": bool}.
 -/
@@ -89,29 +94,41 @@ def ixOfJson (j : Json) : Option Ix :=
     | _ => none
   | j => (jInt? j).map Ix.int
 
-def ixsOfJson (j : Json) : Option (List Ix) :=
+def ixeOfJson (j : Json) : Option IxE :=
   match j with
-  | .arr a => a.toList.mapM ixOfJson
-  | _ => none
+  | .str "..." => some .ellipsis
+  | j => (ixOfJson j).map .ix
+
+def indexOfJson (j : Json) : Option IndexArg :=
+  match j with
+  | .arr a => (a.toList.mapM ixeOfJson).map .tuple
+  | j =>
+    match jStr (j.getObjValD "f"), (jArr (j.getObjValD "i")).toList.mapM ixeOfJson with
+    | "n", some _ => some .none
+    | "b", some [i] => some (.one i)
+    | "t", some l => some (.tuple l)
+    | _, _ => none
 
 inductive Cmd where
-  | step (s : Step)
-  | read (ixs : List Ix)
+  | step (s : TStep)
+  | read (ix : IndexArg)
+
+def arrOf (j : Json) : Option Arr := (arrOfJson j).map fun (dt, a) => ⟨dt, a⟩
 
 def cmdOfJson (j : Json) : Option Cmd :=
   match (jArr j).toList with
-  | [Json.str "write", a] => (arrOfJson a).map fun (_, d) => .step (.write d)
-  | [Json.str "assign", ixs, a] => do
-    let ixs ← ixsOfJson ixs
-    let (_, d) ← arrOfJson a
-    some (.step (.assign ixs d))
+  | [Json.str "write", a] => (arrOf a).map fun d => .step (.write d)
+  | [Json.str "assign", ix, a] => do
+    let ix ← indexOfJson ix
+    let d ← arrOf a
+    some (.step (.assign ix d))
   | [Json.str "append", a, ax] => do
-    let (_, d) ← arrOfJson a
+    let d ← arrOf a
     let ax ← jInt? ax
     some (.step (.append d ax))
   | [Json.str "resize", e] => (intList? e).map fun e => .step (.resize e)
   | [Json.str "reopen"] => some (.step .reopen)
-  | [Json.str "read", ixs] => (ixsOfJson ixs).map .read
+  | [Json.str "read", ix] => (indexOfJson ix).map .read
   | _ => none
 
 def natsJson (l : List Nat) : Json := Json.arr (l.map fun n => Json.num (JsonNumber.fromNat n)).toArray
@@ -120,25 +137,27 @@ def arrJson (A : NdArray Elem) : List (String × Json) :=
   [("shape", natsJson A.shape), ("flat", Json.arr (A.toList.map elemToJson).toArray)]
 
 def observe (r : String) (A : DArr) : Json :=
-  let whole := readAll A
+  let whole : List (String × Json) := match Nix.Gen.DataSet.dsGetItem A fullSlice with
+    | .ok w => arrJson w
+    | .error e => [("observe_error", Json.str e.toString)]
   Json.mkObj ([("r", Json.str r), ("dtype", Json.str (dtypeName A.dtype)),
-    ("extent", natsJson A.arr.shape),
-    ("len", match lenOf A with
-      | .ok n => Json.num (JsonNumber.fromNat n)
+    ("extent", Json.arr ((Nix.Gen.DataSet.dsShapeOf A).map fun n => Json.num (JsonNumber.fromInt n)).toArray),
+    ("len", match Nix.Gen.DataSet.dsLen A with
+      | .ok n => Json.num (JsonNumber.fromInt n)
       | .error e => Json.str e.toString),
-    ("size", Json.num (JsonNumber.fromNat (Nix.Nd.sizeOf A.arr.shape))),
-    ("compressed", Json.bool A.compressed)] ++ arrJson whole)
+    ("size", Json.num (JsonNumber.fromInt (Nix.Gen.DataSet.dsSize A))),
+    ("compressed", Json.bool A.compressed)] ++ whole)
 
 def runCmds (A : DArr) : List Cmd → List Json
   | [] => []
-  | .read ixs :: rest =>
-    (match readRegion A ixs with
+  | .read ix :: rest =>
+    (match Nix.Gen.DataSet.dsGetItem A ix with
       | .ok R => Json.mkObj ([("r", Json.str "ok")] ++ arrJson R)
       | .error e => Json.mkObj [("r", Json.str e.toString)]) :: runCmds A rest
   | .step s :: rest =>
-    match step A s with
-    | .ok B => observe "ok" B :: runCmds B rest
-    | .error e => observe e.toString A :: runCmds A rest
+    match stepGen A s with
+    | (B, none) => observe "ok" B :: runCmds B rest
+    | (B, some e) => observe e.toString B :: runCmds B rest
 
 def handleCase (j : Json) : Option Json := do
   let fc ← comprOfName (jStr (j.getObjValD "fc"))
@@ -151,10 +170,10 @@ def handleCase (j : Json) : Option Json := do
   let shJ := c.getObjValD "shape"
   let shape ← if isNull shJ then some none else (natList? shJ).map some
   let dJ := c.getObjValD "data"
-  let data ← if isNull dJ then some none else (arrOfJson dJ).map some
+  let data ← if isNull dJ then some none else (arrOf dJ).map some
   let cmds ← (jArr (j.getObjValD "steps")).toList.mapM cmdOfJson
   let compr := resolveCompression fc bc ac refetched
-  match createDataArray dtype shape data compr with
+  match createGen dtype shape data compr with
   | .error e => some (ok (Json.mkObj [("create", Json.str e.toString)]))
   | .ok A =>
     some (ok (Json.mkObj [("create", Json.str "ok"), ("first", observe "ok" A),
